@@ -417,6 +417,11 @@ def classify(src, kind):
     for line in src.splitlines():
         if re.search(r"\[(v\d|i\d|a\d\[)", line) and re.search(r"\bY\b", line) and kind == "wrong-value":
             return "y-used-with-memory-subscript"
+    # known finding: an addition / subtraction on 16-bit operands one operand of which is a conditional whose
+    # condition compares (the comparison is evaluated again between the two byte passes and overwrites the carry)
+    for line in src.splitlines():
+        if kind == "wrong-value" and re.search(r"\b[sw]\d", line) and re.search(r"[-+] \(.*(==|!=|<|>).*\?|\?.*\) [-+]", line):
+            return "carry-lost-across-reevaluated-condition"
     if re.search(r"\bs\d\b", src) and kind == "wrong-value":
         return "sixteen-bit-" + kind
     return "c01-" + kind
